@@ -39,10 +39,20 @@ type snap struct {
 	routesNX []string // without expiry
 	conns    []string
 	records  map[netip.Addr]string
+	// probes counts the pings of the harness's own type that V's handlers have been handed so
+	// far: a witness for "handled", which the other fields cannot see when a second handling
+	// writes what the first one wrote.
+	probes int
 }
+
+// probeCounter is set by run: the number of probe pings handed to V's handlers so far.
+var probeCounter func() int
 
 func takeSnap(v *node.Node) *snap {
 	s := &snap{sessions: map[netip.Addr]string{}, records: map[netip.Addr]string{}}
+	if probeCounter != nil {
+		s.probes = probeCounter()
+	}
 	q := storage.NewRouterQuery(nil, nil, 1<<20)
 	_ = v.Storage.QueryRouters(q)
 	for _, r := range q.Result() {
@@ -90,6 +100,9 @@ func takeSnap(v *node.Node) *snap {
 }
 
 func (a *snap) diff(b *snap, ignoreExpiry bool) string {
+	if a.probes != b.probes {
+		return fmt.Sprintf("a ping was handed to V's handlers (%d -> %d handled)", a.probes, b.probes)
+	}
 	for ip, x := range a.sessions {
 		if y, ok := b.sessions[ip]; !ok || x != y {
 			return fmt.Sprintf("session with %s: %s -> %s", ip, x, y)
@@ -333,6 +346,17 @@ func run(e *core.Env) {
 		e.Case(0x07, uint64(len(kind)), uint64(len(what)), uint64(len(data)), uint64(data[len(data)/2]))
 	}
 
+	probeTotal := 0
+	probeCounter = func() int {
+		for _, ev := range ms.TakeProbes() {
+			if ev.At == 0 {
+				probeTotal++
+			}
+		}
+		return probeTotal
+	}
+	e.Cleanup(func() { probeCounter = nil })
+
 	var library [][]byte // captured pings for later replays
 	var libKinds []string
 	var libSrc []netip.Addr
@@ -348,8 +372,17 @@ func run(e *core.Env) {
 		for _, p := range ms.Net.Pending() {
 			before[p] = true
 		}
-		want := tp.Intn(13)
+		want := tp.Intn(14)
 		switch want {
+		case 13:
+			// a ping of the harness's own type from X to V (a signed router ping, handled by a
+			// handler that only counts): every copy, changed or not, that reaches that handler a
+			// second time shows in the count
+			if pf, err := ms.NewProbeFrame(X, V.IP, nil, nil, false, fmt.Sprintf("c07 %d", op)); err == nil {
+				pf.SetTTL(31)
+				_ = linkXV.SendPriority(pf)
+				e.Probe("counting_ping_sent_to_the_victim")
+			}
 		case 12:
 			// X's clock runs ahead (there is one clock in this simulation, so the harness stamps
 			// the frame): a ping of X signed for a time minutes to hours from now. V has no rule
